@@ -475,6 +475,36 @@ func (x *Exec) sliceOp(bc *blockCtx, i *ssa.Slice) *Val {
 		return &Val{Typ: i.Type(), T: x.mkSlice(x.sRef(s), x.b.Add(x.sOff(s), lo), x.b.Sub(hi, lo), x.b.Sub(x.sCap(s), lo))}
 	case *types.Pointer:
 		at := bt.Elem().Underlying().(*types.Array)
+		if base.Loc != nil && base.Loc.SliceR == nil && at.Len() <= 16 {
+			// slice of an array that lives inside a struct / local cell: a *view*.
+			// The slice gets its own backing (a snapshot of the array); copy() into a
+			// view is written through to the array. Other uses that would need
+			// aliasing between the two memories are rejected (see storeLoc).
+			n := x.b.Int(at.Len())
+			if i.High != nil {
+				hi = x.term(bc, i.High)
+			} else {
+				hi = n
+			}
+			x.check(bc, "safe:slice", i, x.b.And(x.b.Cmp("<=", x.b.Int(0), lo), x.b.Cmp("<=", lo, hi), x.b.Cmp("<=", hi, n)))
+			arr := x.loadLoc(bc.st, base.Loc)
+			ref := x.freshRef("view_" + i.Name())
+			es := x.so.SortOf(at.Elem())
+			as := fmt.Sprintf("(Array Int %s)", es)
+			contents := x.b.App(fmt.Sprintf("(as const %s)", as), as, x.zeroTerm(at.Elem()))
+			for k := int64(0); k < at.Len(); k++ {
+				contents = x.sto(contents, x.b.Int(k), x.elemOf(arr, bt.Elem(), x.b.Int(k)))
+			}
+			key := x.heapKeySlice(at.Elem())
+			bc.st.heaps[key] = x.sto(x.getHeap(bc.st, key), ref, contents)
+			if x.views == nil {
+				x.views = map[int]*viewInfo{}
+			}
+			lc := *base.Loc
+			x.views[ref.ID] = &viewInfo{loc: &lc, arrTyp: bt.Elem(), ref: ref}
+			x.note("slices of arrays stored inside structs are snapshot views: copy() into them is written through; element stores through them are not supported")
+			return &Val{Typ: i.Type(), T: x.mkSlice(ref, lo, x.b.Sub(hi, lo), x.b.Sub(n, lo))}
+		}
 		if base.Loc == nil || base.Loc.SliceR == nil || base.Loc.SliceI != nil {
 			panic(unsupported("slicing a pointer to array that is not a fresh heap array"))
 		}
